@@ -13,6 +13,9 @@ import (
 	"github.com/ozanh/ugo/token"
 )
 
+// errNegativeShift is returned by shift operators for a negative shift count.
+var errNegativeShift = ErrType.NewError("negative shift amount")
+
 // Int represents signed integer values and implements Object interface.
 type Int int64
 
@@ -90,6 +93,9 @@ func (o Int) BinaryOp(tok token.Token, right Object) (Object, error) {
 			}
 			return o / v, nil
 		case token.Rem:
+			if v == 0 {
+				return nil, ErrZeroDivision
+			}
 			return o % v, nil
 		case token.And:
 			return o & v, nil
@@ -100,8 +106,14 @@ func (o Int) BinaryOp(tok token.Token, right Object) (Object, error) {
 		case token.AndNot:
 			return o &^ v, nil
 		case token.Shl:
+			if v < 0 {
+				return nil, errNegativeShift
+			}
 			return o << v, nil
 		case token.Shr:
+			if v < 0 {
+				return nil, errNegativeShift
+			}
 			return o >> v, nil
 		case token.Less:
 			return Bool(o < v), nil
@@ -236,6 +248,9 @@ func (o Uint) BinaryOp(tok token.Token, right Object) (Object, error) {
 			}
 			return o / v, nil
 		case token.Rem:
+			if v == 0 {
+				return nil, ErrZeroDivision
+			}
 			return o % v, nil
 		case token.And:
 			return o & v, nil
@@ -502,6 +517,9 @@ func (o Char) BinaryOp(tok token.Token, right Object) (Object, error) {
 			}
 			return o / v, nil
 		case token.Rem:
+			if v == 0 {
+				return nil, ErrZeroDivision
+			}
 			return o % v, nil
 		case token.And:
 			return o & v, nil
@@ -512,8 +530,14 @@ func (o Char) BinaryOp(tok token.Token, right Object) (Object, error) {
 		case token.AndNot:
 			return o &^ v, nil
 		case token.Shl:
+			if v < 0 {
+				return nil, errNegativeShift
+			}
 			return o << v, nil
 		case token.Shr:
+			if v < 0 {
+				return nil, errNegativeShift
+			}
 			return o >> v, nil
 		case token.Less:
 			return Bool(o < v), nil
